@@ -111,6 +111,29 @@ func installKnobs(s *sim.Sim, k plan.Knobs) {
 		return 0, false
 	}
 	if k.YieldDensity > 0 {
+		// inserted scheduling points (vsync.Y): short yields only, at a third of
+		// the density - there are many more of them than lock sites, and long
+		// stalls at each would add up to more than any oracle's slack
+		vsync.HookY = func(pc uintptr) {
+			if yieldPaused.Load() {
+				return
+			}
+			st := site(pc)
+			if k.YieldMask != 0 && (k.YieldMask>>(sim.HashStr(st)&63))&1 == 0 {
+				return
+			}
+			siteMu.Lock()
+			siteCtr[st]++
+			n := siteCtr[st]
+			siteMu.Unlock()
+			if !s.Coin("Y:"+st, n, k.YieldDensity/3) {
+				return
+			}
+			d := s.Dur("Yd:"+st, n, 50, 20_000)
+			s.Fault("yield")
+			s.Logf("yield", "%s %d", st, int64(d))
+			time.Sleep(d)
+		}
 		vsync.Hook = func(pc uintptr) {
 			if yieldPaused.Load() {
 				return
@@ -152,6 +175,7 @@ var yieldPaused atomic.Bool
 
 func uninstallKnobs() {
 	vsync.Hook = nil
+	vsync.HookY = nil
 	vsync.Pick = nil
 	vbytes.Drain()
 	vbytes.Report = nil
